@@ -1,8 +1,9 @@
 """CrossHair condition (engine E2): an unknown head symbol makes the expression interpreter raise."""
+import os
 import sys
 
 sys.path.insert(0, "/verif/symx/jaxshim")  # the light-weight jax model is enough: no array is touched
-sys.path.insert(1, "/repo")
+sys.path.insert(1, os.environ.get("PW_REPO", "/repo"))
 from photon_weave.extra.expression_interpreter import interpreter
 
 COMMANDS = ("add", "sub", "s_mult", "m_mult", "kron", "expm", "div")
